@@ -33,6 +33,8 @@ func runC01(c *eng.Ctx) {
 	c.Rule("R01.8", "K5")
 	ruleRecoveredBookkeepingPairs(c)
 	ruleRecoveredEntryIsTheLastAnswer(c)
+	c.Rule("R05.8", "K5")
+	ruleRebuildDoesNotBoundSizesBySegmentLimit(c)
 	c.Rule("R05.1", "K2")
 	ruleLogThenIndex(c)
 	c.Rule("R05.3", "K2")
